@@ -113,6 +113,9 @@ func tail(s string, n int) string {
 	return s
 }
 
+// Interesting is the exported form of interesting.
+func Interesting(s string, n int) string { return interesting(s, n) }
+
 // interesting returns the part of a crash output that starts at the panic / fatal error line.
 func interesting(s string, n int) string {
 	if i := strings.Index(s, "SIGQUIT"); i >= 0 {
